@@ -204,7 +204,7 @@ def rule_get(ck):
     sizes = assigned_from_call(lambda c: q.dotted(c.func) == "self.get_content_size")
     ck.need(len(set(sizes)) == 1, "StaticFileHandler.get: size variable (self.get_content_size()) not identified")
     size = sizes[0]
-    rrs = assigned_from_call(lambda c: q.call_attr(c) == "_parse_request_range")
+    rrs = [a.targets[0].id for a in q.walk_body(get.node) if isinstance(a, ast.Assign) and len(a.targets) == 1 and isinstance(a.targets[0], ast.Name) and any(isinstance(c_, ast.Call) and q.call_attr(c_) == "_parse_request_range" for c_ in ast.walk(a.value))]
     ck.need(len(set(rrs)) == 1, "StaticFileHandler.get: parsed-range variable not identified")
     rr = rrs[0]
     unpack = [x for x in q.walk_body(get.node) if isinstance(x, ast.Assign) and isinstance(x.targets[0], ast.Tuple) and q.dotted(x.value) == rr and len(x.targets[0].elts) == 2]
@@ -511,7 +511,7 @@ def rule_range_model(ck):
     cli = [i for i, st in enumerate(gbody) if isinstance(st, ast.Expr) and q.is_call(st.value, "self.set_header") and _hdr_is(st.value, "Content-Length")]
     if len(szi) != 1 or len(cli) != 1 or szi[0] >= cli[0]:
         raise AnalysisError("C27.range-model: range block of get() (size = ... up to the Content-Length header) not found at the top level (unknown idiom)")
-    rr_names = {a.targets[0].id for a in q.walk_body(get.node) if isinstance(a, ast.Assign) and isinstance(a.value, ast.Call) and q.call_attr(a.value) == "_parse_request_range" and isinstance(a.targets[0], ast.Name)}
+    rr_names = {a.targets[0].id for a in q.walk_body(get.node) if isinstance(a, ast.Assign) and any(isinstance(c_, ast.Call) and q.call_attr(c_) == "_parse_request_range" for c_ in ast.walk(a.value)) and isinstance(a.targets[0], ast.Name)}
     first = szi[0]
     for i_, st_ in enumerate(gbody[:cli[0]]):
         if any(isinstance(x, ast.Name) and isinstance(x.ctx, ast.Store) and x.id in rr_names for x in ast.walk(st_)):
@@ -536,7 +536,7 @@ def rule_range_model(ck):
         if not moved:
             break
     region = gbody[first:cli[0] + 1]
-    rr = [a.targets[0].id for a in q.walk_body(get.node) if isinstance(a, ast.Assign) and isinstance(a.value, ast.Call) and q.call_attr(a.value) == "_parse_request_range" and isinstance(a.targets[0], ast.Name)]
+    rr = [a.targets[0].id for a in q.walk_body(get.node) if isinstance(a, ast.Assign) and any(isinstance(c_, ast.Call) and q.call_attr(c_) == "_parse_request_range" for c_ in ast.walk(a.value)) and isinstance(a.targets[0], ast.Name)]
     if len(set(rr)) != 1:
         raise AnalysisError("C27.range-model: parsed-range variable not identified")
     rr = rr[0]
